@@ -329,6 +329,10 @@ def wellformed(R, fn, col: Collector):
             if isinstance(sym, AppliedUndef):  # e.g. A_CENTRAL(t) = ... after solve_ode_system
                 amount_funcs.add(str(sym.func))
         elif isinstance(s, CompartmentalSystem):
+            cn = list(s.compartment_names)
+            dupc = sorted({n for n in cn if cn.count(n) > 1})
+            if dupc:
+                col.add(f'{pre}:duplicate-compartment-name', observed=dupc)
             used = {str(x) for x in s.rhs_symbols}
             for cname in s.compartment_names:
                 cmp_ = s.find_compartment(cname)
@@ -452,6 +456,7 @@ class Step:
         self.pairs = []
         self.timeout = False
         self.code_refused = False
+        self.notes = []
 
 
 def judged_call(M, name, ints, twice, col: Collector, evals, mode='api'):
@@ -470,6 +475,7 @@ def judged_call(M, name, ints, twice, col: Collector, evals, mode='api'):
         stp.exc = 'argument-construction:' + type(e).__name__
         return stp
     fn = entry.resolve()
+    stp.notes = list(api_table.LAST_NOTES)
     if entry.domain is not None:
         why = entry.domain(M)
         if why:
@@ -764,6 +770,8 @@ def _run(spec, mode):
         stp = judged_call(M, name, ints, twice or mode == 'eqhash', col, evals, mode)
         chain.append(f'{name}({stp.kw})' + ('' if stp.returned else f' !{stp.exc}'))
         argdig.update(stp.kw.encode())
+        for note in stp.notes:
+            classes.append(note + (':returned' if stp.returned else ':refused'))
         if stp.returned:
             classes.append(f'ret:{name}')
             if stp.code_refused:
@@ -835,6 +843,17 @@ def enumerate_api(tier):
                 if 'pre' in pref:
                     steps = [[tnames.index(pref['pre']), _lcg(fi * 1000 + j + 500, 8)]] + steps
             yield dict(m=m, steps=steps, twice=(j % 2 == 0))
+    # names of new random variables colliding with members of a block: create_joint_distribution first
+    creps = 6 if tier == 'quick' else 60
+    k = 0
+    for fn in api_table.COLLISION_FUNCS:
+        for st in api_table.COLLISION_STARTS:
+            if st not in start_names():
+                continue
+            for j in range(creps):
+                k += 1
+                pre = [['create_joint_distribution', _lcg(k * 3 + 1, 8)]] if (j % 3 or st == 'pheno_block') else []
+                yield dict(m=st, steps=pre + [[fn, _lcg(k * 11 + j, 8)]], twice=False)
 
 
 def enumerate_eq(tier):
